@@ -160,6 +160,11 @@ func cmdCheck(args []string) int {
 	var obls, canaries, knownObls []*Obligation
 	for _, r := range results {
 		for _, o := range r.Script.Obls {
+			if *prop == "C20" && !o.Canary && !isDisciplineObligation(o) {
+				// C20 is decided by the lock-discipline and no-panic obligations of the functions
+				// serving it; their functional obligations belong to the other properties
+				continue
+			}
 			switch {
 			case o.Canary:
 				canaries = append(canaries, o)
@@ -348,6 +353,20 @@ func cmdCheck(args []string) int {
 		return 2
 	}
 	return 0
+}
+
+// isDisciplineObligation: lock order, guarded-by, held/unlocked preconditions, no-panic.
+func isDisciplineObligation(o *Obligation) bool {
+	switch o.Kind {
+	case "guarded-by", "lock-order", "no-panic", "immutable":
+		return true
+	}
+	for _, w := range []string{"guard", "locked", "unlocked", "owner"} {
+		if strings.Contains(o.Label, w) {
+			return true
+		}
+	}
+	return false
 }
 
 func firstLines(s string, n int) string {
